@@ -438,8 +438,8 @@ fn main() {
         format!("{n}: {c:?} expect {e:?}")
     });
 
-    ctx.run_prop_with("build-sapling", move || gen::arb_case(max_n, Engine::Build), tier.pick(5_000, 300_000), 600, check_case);
-    ctx.run_prop_with("build-pczt", move || gen::arb_case(max_n, Engine::Pczt), tier.pick(5_000, 300_000), 600, check_case);
+    ctx.run_prop_with("build-sapling", move || gen::arb_case(max_n, Engine::Build), tier.pick(3_000, 150_000), 600, check_case);
+    ctx.run_prop_with("build-pczt", move || gen::arb_case(max_n, Engine::Pczt), tier.pick(3_000, 150_000), 600, check_case);
     // generator health (fractions: the quotas differ between tiers)
     for (sub, label, frac) in [
         ("build-sapling", "ok", 0.25),
